@@ -197,7 +197,9 @@ func c05Families(tier string) []explore.Family {
 	// no padding, trim markers): each block ends at ITS OWN first end tag, whatever the other one looks like.
 	// Bodies and the text between carry no whitespace at their edges, so trim markers have nothing to remove.
 	spell := func(name string) []string {
-		return []string{"{% " + name + " %}", "{%" + name + "%}", "{%- " + name + " -%}", "{%  " + name + "  %}", "{%\t" + name + "\t%}", "{%\n" + name + "\n%}", "{% " + name + "\n%}", "{%-" + name + " %}", "{% " + name + "-%}"}
+		return []string{"{% " + name + " %}", "{%" + name + "%}", "{%- " + name + " -%}", "{%  " + name + "  %}", "{%\t" + name + "\t%}", "{%\n" + name + "\n%}", "{% " + name + "\n%}", "{%-" + name + " %}", "{% " + name + "-%}",
+			// a document with CRLF line ends (or a form feed) where a tag wraps
+			"{% " + name + "\r\n%}", "{%\r\n" + name + " %}", "{% " + name + "\f%}"}
 	}
 	tbBodies := []string{"", "a", "{{ y }}", "{% if %}", "}}", "{%", "{{", "%}x", "a b", "{% endif %}", "{% end", "é"}
 	nSp := len(spell("raw"))
